@@ -16,7 +16,6 @@ package rules_test
 
 import (
 	"fmt"
-	"os"
 	"net/netip"
 	"sort"
 	"strings"
@@ -867,9 +866,9 @@ func TestVerifC40Paths(t *testing.T) {
 		"failsafe lists never contain the VXLAN port; with IPVS support, node-port range packets count as forwarded and are not used",
 		"WireGuard disabled; BPF mode, NAT side effects (address rewriting) and IPVS-forwarded output path not modelled")
 	defer rec.Write()
-	noWildcardFwdEstablished := ev.Known(c40SigWildcardFwdEstablished) || os.Getenv("VERIF_C40_DEVTMP") == "1" // DEVTMP: remove
+	noWildcardFwdEstablished := ev.Known(c40SigWildcardFwdEstablished)
 
-	noSecondPrefixEstablished := ev.Known(c40SigSecondPrefixEstablished) || os.Getenv("VERIF_C40_DEVTMP") == "1" // DEVTMP: remove
+	noSecondPrefixEstablished := ev.Known(c40SigSecondPrefixEstablished)
 
 	rapid.Check(t, func(t *rapid.T) {
 		w := c40GenWorld(t)
